@@ -20,7 +20,7 @@ def _engine_errors():
 
 def token(e: BaseException) -> t.Any:
     oneof, rec = _engine_errors()
-    if isinstance(e, (W.E1, W.E2)) and len(e.args) == 2:
+    if isinstance(e, (W.E1, W.E2, W.E3)) and len(e.args) == 2:
         return ('node', e.args[0], e.args[1])
     if isinstance(e, W.Fatal) and len(e.args) == 2:
         return ('fatal', e.args[0], e.args[1])
@@ -373,6 +373,16 @@ def m_leftovers(x, rid: int = 0) -> t.List[V]:
         out.append(('leftover-tasks', f'tasks still pending after run returned: {x.leftover}'))
     if x.late:
         out.append(('late-activity', f'started after run returned: {[(e[0], e[2], e[3]) for e in x.late][:4]}'))
+    else:
+        # also while the loop was still draining its ready queue: anything of this run that STARTS after its 'returned' mark
+        ret = None
+        for pos, e in enumerate(x.log):
+            if e[0] == 'returned' and e[1] == rid:
+                ret = pos
+        if ret is not None:
+            after = [e for e in x.log[ret + 1:] if e[0] in ('start', 'event', 'save', 'default') and e[1] == rid]
+            if after:
+                out.append(('late-activity', f'started after run returned (while the loop drained): {[(e[0], e[2], e[3]) for e in after][:4]}'))
     if x.drain_steps >= 1000:
         out.append(('unbounded-drain', 'ready queue not empty 1000 steps after run returned'))
     return out
